@@ -1422,3 +1422,172 @@ Proof.
   intros Hn Hs. apply new_app_stacks in Hn. destruct Hn as [_ Hp].
   apply (order_spec asgi). congruence.
 Qed.
+
+(* ------------------------------------------------------------------ nothing escapes a benign script *)
+
+(* an action after which no exception can leave the app: anything except raising a
+   BaseException or raising an error whose handler raises a non-HTTP error *)
+Definition benign_action (a : action) : bool :=
+  match a with RaiseUnhandled | RaiseApp HRaiseOther => false | _ => true end.
+
+Definition benign_opt (o : option action) : bool :=
+  match o with Some a => benign_action a | None => true end.
+
+Definition benign_comp (c : comp) : bool :=
+  benign_opt (c_req c) && benign_opt (c_rsrc c) && benign_opt (c_resp c).
+
+Definition benign_request (q : request) : bool :=
+  forallb (fun h => benign_action (snd h)) (q_hooks q) && benign_action (q_responder q).
+
+Definition benign_exn (x : exn) : bool :=
+  match x with XBase | XApp HRaiseOther => false | _ => true end.
+
+Lemma call_benign a x : benign_action a = true -> call a = CRaise x -> benign_exn x = true.
+Proof. destruct a as [| | |[| |]|]; simpl; intros B H; try discriminate; injection H as <-; reflexivity. Qed.
+
+Lemma seq_calls_exn_benign stop l cpl ev c s x :
+  forallb (fun p => benign_action (snd p)) l = true ->
+  seq_calls stop l cpl = (ev, c, Some (s, x)) -> benign_exn x = true.
+Proof.
+  intros B H. apply seq_calls_facts in H. destruct H as (_ & _ & f0 & a & _ & Ca & _ & Hin).
+  rewrite forallb_forall in B. specialize (B _ Hin). eapply call_benign; eauto.
+Qed.
+
+Lemma resp_loop_benign : forall l rsrc succ,
+  forallb (fun p => benign_action (snd p)) l = true ->
+  exists s, snd (resp_loop l rsrc succ) = Finished s.
+Proof.
+  induction l as [|[i a] tl IH]; intros rsrc succ B; simpl.
+  - eauto.
+  - simpl in B. apply andb_true_iff in B as [Ba Btl].
+    destruct a as [| | |[| |]|]; simpl in *; try discriminate.
+    + destruct (IH rsrc succ Btl) as [s Hs]. destruct (resp_loop tl rsrc succ). simpl in *. eauto.
+    + destruct (IH rsrc succ Btl) as [s Hs]. destruct (resp_loop tl rsrc succ). simpl in *. eauto.
+    + destruct (IH rsrc false Btl) as [s Hs]. destruct (resp_loop tl rsrc false). simpl in *. eauto.
+    + destruct (IH rsrc false Btl) as [s Hs]. destruct (resp_loop tl rsrc false). simpl in *. eauto.
+    + destruct (IH rsrc false Btl) as [s Hs]. destruct (resp_loop tl rsrc false). simpl in *. eauto.
+Qed.
+
+Lemma spec_resp_phase_benign ev l rsrc succ :
+  forallb (fun p => benign_action (snd p)) l = true ->
+  exists s, snd (spec_resp_phase ev l rsrc succ) = Finished s.
+Proof.
+  intro B. unfold spec_resp_phase. destruct (resp_loop_benign l rsrc succ B) as [s Hs].
+  destruct (resp_loop l rsrc succ). simpl in *. eauto.
+Qed.
+
+Lemma after_raise_benign ev s x l rsrc :
+  benign_exn x = true -> forallb (fun p => benign_action (snd p)) l = true ->
+  exists s', snd (after_raise ev s x l rsrc) = Finished s'.
+Proof.
+  intros Bx B. unfold after_raise.
+  destruct x as [|[| |]|]; simpl in *; try discriminate; apply spec_resp_phase_benign; exact B.
+Qed.
+
+Lemma methods_benign sel (Hsel : forall c, benign_comp c = true -> benign_opt (sel c) = true) :
+  forall cs i, forallb benign_comp cs = true ->
+  forallb (fun p : nat * action => benign_action (snd p)) (methods sel i cs) = true.
+Proof.
+  induction cs as [|c tl IH]; intros i B; simpl; [reflexivity|].
+  simpl in B. apply andb_true_iff in B as [Bc Btl]. specialize (Hsel c Bc).
+  destruct (sel c) as [a|]; simpl in *.
+  - rewrite Hsel. apply IH. exact Btl.
+  - apply IH. exact Btl.
+Qed.
+
+Lemma forallb_rev {A} (f : A -> bool) l : forallb f (rev l) = forallb f l.
+Proof.
+  induction l; simpl; [reflexivity|]. rewrite forallb_app, IHl. simpl. rewrite andb_true_r.
+  apply andb_comm.
+Qed.
+
+Lemma forallb_firstn {A} (f : A -> bool) : forall n l, forallb f l = true -> forallb f (firstn n l) = true.
+Proof.
+  induction n as [|n IH]; intros [|x l] H; simpl in *; auto.
+  apply andb_true_iff in H as [H1 H2]. rewrite H1. simpl. apply IH. exact H2.
+Qed.
+
+Lemma at_site_benign f l :
+  forallb (fun p : nat * action => benign_action (snd p)) l = true ->
+  forallb (fun p : site * action => benign_action (snd p)) (at_site f l) = true.
+Proof.
+  induction l as [|p tl IH]; simpl; intro H; [reflexivity|].
+  apply andb_true_iff in H as [H1 H2]. rewrite H1. simpl. apply IH. exact H2.
+Qed.
+
+Lemma befores_benign : forall hs j, forallb (fun h : bool * action => benign_action (snd h)) hs = true ->
+  forallb (fun p : site * action => benign_action (snd p)) (befores j hs) = true.
+Proof.
+  induction hs as [|[b a] tl IH]; intros j B; [reflexivity|].
+  simpl in B. apply andb_true_iff in B as [B1 B2]. destruct b; simpl.
+  - rewrite B1. simpl. apply IH. exact B2.
+  - apply IH. exact B2.
+Qed.
+
+Lemma afters_benign : forall hs j, forallb (fun h : bool * action => benign_action (snd h)) hs = true ->
+  forallb (fun p : site * action => benign_action (snd p)) (afters j hs) = true.
+Proof.
+  induction hs as [|[b a] tl IH]; intros j B; [reflexivity|].
+  simpl in B. apply andb_true_iff in B as [B1 B2]. destruct b; simpl.
+  - apply IH. exact B2.
+  - rewrite forallb_app, IH by exact B2. simpl. rewrite B1. reflexivity.
+Qed.
+
+Lemma spec_responder_benign q ev c s x :
+  benign_request q = true -> spec_responder q false = (ev, c, Some (s, x)) -> benign_exn x = true.
+Proof.
+  unfold benign_request, spec_responder. intros B H. apply andb_true_iff in B as [Bh Br].
+  destruct (q_route q).
+  - eapply seq_calls_exn_benign; [|exact H]. unfold flat_responder.
+    rewrite !forallb_app, befores_benign, afters_benign by exact Bh. simpl. rewrite Br. reflexivity.
+  - injection H as _ _ _ <-. reflexivity.
+  - eapply seq_calls_exn_benign; [|exact H]. simpl. rewrite Br. reflexivity.
+  - injection H as _ _ _ <-. reflexivity.
+Qed.
+
+Theorem spec_benign_finished indep cs q :
+  forallb benign_comp cs = true -> benign_request q = true ->
+  exists s, snd (spec_trace indep cs q) = Finished s.
+Proof.
+  intros Bc Bq.
+  assert (Breq : forallb (fun p : nat * action => benign_action (snd p)) (methods c_req 0 cs) = true).
+  { apply methods_benign; [|exact Bc]. unfold benign_comp. intros c H.
+    apply andb_true_iff in H as [H _]. apply andb_true_iff in H as [H _]. exact H. }
+  assert (Brs : forallb (fun p : nat * action => benign_action (snd p)) (methods c_rsrc 0 cs) = true).
+  { apply methods_benign; [|exact Bc]. unfold benign_comp. intros c H.
+    apply andb_true_iff in H as [H _]. apply andb_true_iff in H as [_ H]. exact H. }
+  assert (Brp : forall cs', forallb benign_comp cs' = true ->
+          forallb (fun p : nat * action => benign_action (snd p)) (rev (methods c_resp 0 cs')) = true).
+  { intros cs' B'. rewrite forallb_rev. apply methods_benign; [|exact B']. unfold benign_comp.
+    intros c H. apply andb_true_iff in H as [_ H]. exact H. }
+  unfold spec_trace. destruct (q_meta q).
+  - apply after_raise_benign; [reflexivity|]. destruct indep; [apply Brp; exact Bc|reflexivity].
+  - destruct (seq_calls true (at_site SReq (methods c_req 0 cs)) false) as [[ev1 cpl1] e1] eqn:E1.
+    destruct e1 as [[s x]|].
+    + apply after_raise_benign.
+      * eapply seq_calls_exn_benign; [|exact E1]. apply at_site_benign. exact Breq.
+      * destruct indep; apply Brp; [exact Bc|]. apply forallb_firstn. exact Bc.
+    + destruct cpl1; [apply spec_resp_phase_benign, Brp, Bc|].
+      set (P2 := if has_resource (q_route q)
+                 then seq_calls true (at_site SRsrc (methods c_rsrc 0 cs)) false
+                 else ([], false, None)).
+      destruct P2 as [[ev2 cpl2] e2] eqn:E2.
+      destruct e2 as [[s x]|].
+      * apply after_raise_benign; [|apply Brp, Bc]. unfold P2 in E2.
+        destruct (has_resource (q_route q)); [|discriminate].
+        eapply seq_calls_exn_benign; [|exact E2]. apply at_site_benign. exact Brs.
+      * destruct cpl2; [apply spec_resp_phase_benign, Brp, Bc|].
+        destruct (spec_responder q false) as [[ev3 c3] e3] eqn:E3.
+        destruct e3 as [[s x]|].
+        -- apply after_raise_benign; [|apply Brp, Bc]. eapply spec_responder_benign; eauto.
+        -- apply spec_resp_phase_benign, Brp, Bc.
+Qed.
+
+(* if no scripted action raises a BaseException or has an error handler that raises a
+   non-HTTP error, then for every stack, mode, route and fault placement the request ends
+   with a response: no exception leaves the app *)
+Theorem benign_finished asgi indep cs st q :
+  prepare asgi indep cs = Some st ->
+  forallb benign_comp cs = true -> benign_request q = true ->
+  exists s, snd (run_request indep st q) = Finished s.
+Proof. intros H Bc Bq. rewrite (order_spec _ _ _ _ q H). apply spec_benign_finished; assumption. Qed.
